@@ -1,19 +1,12 @@
 #!/bin/sh
-# tools/recheck_seeded.sh <name> <check ids...>: applies seeded/<name>/patch.diff to /repo, runs the checks (quick), undoes it.
+# tools/recheck_seeded.sh <name> <check ids...>: runs the checks (quick) against a scratch worktree with
+# seeded/<name>/patch.diff applied (tools/try_patch.sh), appends the lines to seeded/<name>/confirm.log.
 name="$1"; shift
-HERE="$(pwd)"
+HERE="$(cd "$(dirname "$0")/.." && pwd)"; cd "$HERE" || exit 2
 log="seeded/$name/confirm.log"
-git -C /repo status --short | grep -q . && { echo "/repo is not clean"; exit 2; }
-git -C /repo apply "$HERE/seeded/$name/patch.diff" || { echo "patch does not apply to /repo"; exit 1; }
-echo "== re-check after strengthening ($(date -u +%FT%TZ))" | tee -a "$log"
+echo "== re-check after strengthening" | tee -a "$log"
+tools/try_patch.sh "$name" "seeded/$name/patch.diff" "$@" | tee -a "$log"
 for c in "$@"; do
-  ./check "$c" --tier quick > /tmp/chk.$$.out 2>&1; rc=$?
-  echo "check $c rc=$rc $(grep -E 'VIOLATION' /tmp/chk.$$.out | head -1)" | tee -a "$log"
-  if [ $rc -eq 1 ]; then
-    rp=$(grep -E 'VIOLATION' /tmp/chk.$$.out | head -1 | sed 's/.*replay=\([^ ]*\).*/\1/')
-    [ -f "$rp" ] && cp "$rp" "seeded/$name/replay-$c.json"
-  fi
+  rp=$(grep -E 'VIOLATION' "evidence-scratch/$name/$c.out" 2>/dev/null | head -1 | sed 's/.*replay=\([^ ]*\).*/\1/')
+  [ -n "$rp" ] && [ -f "$rp" ] && cp "$rp" "seeded/$name/replay-$c.json"
 done
-rm -f /tmp/chk.$$.out
-git -C /repo checkout -q -- .
-git -C /repo status --short | tee -a "$log"
